@@ -60,7 +60,7 @@ def _strip_failures(script):
     for a in script:
         if G.act_fails(a):
             continue
-        if a["a"] == "thread":
+        if a["a"] in G.NESTED:
             a = dict(a, script=_strip_failures(a["script"]))
         out.append(a)
     return out
